@@ -1090,6 +1090,12 @@ fn convert_turbulence(fe: SvgNode) -> Kind {
         num_octaves = 0.0;
     }
 
+    // Each octave contributes half as much as the previous one, so there is nothing
+    // to see long before this limit, while the rendering time is proportional
+    // to the number of octaves. Browsers limit it as well.
+    const MAX_OCTAVES: f32 = 255.0;
+    num_octaves = num_octaves.min(MAX_OCTAVES);
+
     let kind = match fe.attribute(AId::Type).unwrap_or("turbulence") {
         "fractalNoise" => TurbulenceKind::FractalNoise,
         _ => TurbulenceKind::Turbulence,
